@@ -59,6 +59,9 @@ CLAIMED = {
  "C19": ("proptest-generated save/load round trips (file content compared with the user's data and across generations) and fault injection on saved files (truncation, byte and token-level corruption)",
          "Exploration: 6k round trips and 40k faulted loads (quick; 200k / 2M thorough): every cone variant, empty matrices, extreme values, infinite and above-bound right-hand sides, every settings field randomised, optional override; the saved file must equal the user's data (exactly when equilibration is off), the loaded settings the saved/override ones, a second save the first, and both solvers the same verdict (bit-identical when equilibration is off). Corrupted files must yield Err or a solver that solves without panicking.",
          "Trusted: serde_json parsing of the saved text; temporary files are anonymous files under harness/target/cv-tmp; corrupted-but-accepted files are solved with sane settings (no termination is promised for e.g. a backtracking factor of 8).", "DESIGN.md §4 C19"),
+ "C20": ("proptest-generated problems x settings x histories of (print target, verbose) choices on one solver object; the verbose log is parsed back and compared with the solve's public record and an independent model of the internal problem; byte-exact model of every target's content; child process for stdout",
+         "Exploration: 40k cases (quick; 1.5M thorough), each a verbose reference solve, a silent solve, a 1-4 step target/verbose history replayed against a twin object, and for a third of them a child process capturing stdout: all terminal statuses, all cone types, presolve reductions, chordal blocks, elided cone lists, every printed setting randomised.",
+         "Trusted: the log parser in harness/src/props/c20.rs; determinism of a solve given data and settings (cases with a finite time limit above 1e-9 s are only checked log-against-own-solve); the sink target is unobservable by construction.", "DESIGN.md §4 C20"),
 }
 PENDING_REASON = "check not built yet in this session (planned, see DESIGN.md §4); not claimed until its check exists and is silent on the unchanged tree"
 
